@@ -121,7 +121,9 @@ func TestVerifFallbackWrappers(t *testing.T) {
 		"UpdateDocument": func(ctx context.Context) (string, error) {
 			return "", UpdateDocument(ctx, agent, "s", "c", []byte("k"), []byte("v"), 0, nil)
 		},
-		"DeleteDocument": func(ctx context.Context) (string, error) { return "", DeleteDocument(ctx, agent, "s", "c", []byte("k")) },
+		"DeleteDocument": func(ctx context.Context) (string, error) {
+			return "", DeleteDocument(ctx, agent, "s", "c", []byte("k"))
+		},
 		"UpsertXattrs": func(ctx context.Context) (string, error) {
 			return "", UpsertXattrs(ctx, agent, "s", "c", []byte("k"), "p", []byte("v"), 0)
 		},
